@@ -9,7 +9,8 @@ LEVEL = "exploration"
 RULE = ("S-syn listings (lower-case hex addresses incl. add0/dec0-style ones, mnemonics add/dec/fadd) x rules with every "
         "operator kind in leading position, operand items in excess of the instruction's operand count, and the shipped "
         "tests/macros/jasm_macros.yaml @any as mnemonic / operand (0-4 of them) / $deref value, and immediates named in the "
-        "'<hex>h' spelling. Monitors per execution: "
+        "'<hex>h' spelling; a probe stratum of three-/four-operand instructions with an operand-level $not before further operand items "
+        "(judged strictly against R-dsl). Monitors per execution: "
         "(a) every full-text hit of all-matches and first-match mode is the concatenation of whole consecutive records of "
         "the stream observed in the same run (strict); (b) address-only mode reports, element by element, the address of the "
         "first covered record (strict); (c) for rules without times / different-length alternatives the hit covers exactly "
@@ -53,6 +54,8 @@ def monitor(driver, doc, text, prep, o):
     if o.status != "ok":
         return
     case = dsl.case_doc(text, prep, "c07")
+    strict = bool(getattr(driver, "strict", False))       # probe strata whose elements are wildcard-like ($not stands for one operand)
+    case["strict"] = strict
     import re
     has_any = "@any" in text or re.search(r"(?m)^\s*- '?[0-9a-f]+h'?$", text) is not None    # wildcard-like elements: judged against R-dsl here
     if "" in o.hits:
@@ -109,7 +112,7 @@ def monitor(driver, doc, text, prep, o):
     if o.model_unsupported is not None:
         ctx.event("differential_skipped:" + o.model_unsupported[:30])
     elif o.verdict != "held":
-        if has_any:
+        if has_any or strict:
             key = dsl.attribute(yaml.safe_load(text), prep, o, QUIRKS)
             ctx.disagreement(case, o.why + f" | regex={o.regex[:500]}", key)
         else:
@@ -148,6 +151,10 @@ def run_shard(ctx):
     d.macros = [MACROS]
     d.loop(2500, 120000)
     wildcard_position_stratum(ctx, d, ctx.share(400, 16000))
+    from jv import strata
+    d.strict = True
+    strata.operand_not_stratum(ctx, d, ctx.share(160, 6000))       # "no element spans two operands": $not followed by further operand items
+    d.strict = False
 
 
 def replay(ctx, case):
@@ -161,6 +168,7 @@ def replay(ctx, case):
         pass
     d = D()
     d.ctx, d.ws, d.macros = ctx, ws, [MACROS]
+    d.strict = bool(case.get("strict"))
     o = dsl.evaluate(ws, prep, case["rule"], macros=[MACROS])
     ctx.ran()
     monitor(d, yaml.safe_load(case["rule"]), case["rule"], prep, o)
